@@ -70,6 +70,7 @@ class Ctx:
         self.failure_kinds = collections.Counter()
         self.inconclusive = []
         self.unprocessed = collections.Counter()
+        self.extra = {}
         self.shrink_allowance = float(spec.get("shrink_allowance_s", 60))
         self._sample_slots = spec.get("samples", 3)
         self._sample_rng = random.Random(f"samples/{self.seed}/{spec.get('shard', 0)}")
@@ -101,7 +102,7 @@ class Ctx:
             "counters": dict(self.counters), "hashes": sorted(self.hashes),
             "samples": self.samples, "failures": self.failures,
             "failure_kinds": dict(self.failure_kinds), "unprocessed": dict(self.unprocessed),
-            "inconclusive": self.inconclusive,
+            "inconclusive": self.inconclusive, "extra": self.extra,
         }
 
 
